@@ -18,6 +18,7 @@
 #include "stubs_msg.h"
 #include "stubs_log.h"
 #include "stubs_realloc.h"
+#include "stubs_snprintf.h"
 
 #ifndef KV_N
 #define KV_N 2
